@@ -160,3 +160,23 @@ def c_apply_preresolved(npos: int, a0: int, a1: int, a2: int, k0: int) -> bool:
         return (args, kw.get("z"))
     out = f_apply(f_return(fn), *[f_return(v) for v in [a0, a1, a2][:npos]], z=f_return(k0))
     return out.result() == (tuple([a0, a1, a2][:npos]), k0)
+
+
+def c_apply_keyword_names(which: int, a: int, b: int, first: int) -> bool:
+    """
+    pre: 0 <= which <= 7 and 0 <= first <= 1
+    post: __return__
+    """
+    # every keyword argument arrives under its own name, whatever that name is
+    name = ["key", "value", "fn", "args", "kwargs", "self", "x", "out"][which]
+    seen = []
+
+    def fn(*args, **kwargs):
+        seen.append((args, sorted(kwargs.items())))
+        return ("r", args, sorted(kwargs.items()))
+
+    fa, fb = RF(), RF()
+    out = f_apply(f_return(fn), fa, **{name: fb})
+    for i in ([0, 1] if first == 0 else [1, 0]):
+        _finish([fa, fb][i], 0, [a, b][i], None)
+    return out.done() and out.exception() is None and out.result() == ("r", (a,), [(name, b)]) and len(seen) == 1
